@@ -252,18 +252,47 @@ class LineProc:
         self.argv, self.env = argv, env
         self.start()
 
+    timeout = 30
+
     def start(self):
         self.p = subprocess.Popen(self.argv, stdin=subprocess.PIPE, stdout=subprocess.PIPE,
-                                  stderr=subprocess.DEVNULL, env=self.env)
+                                  stderr=subprocess.DEVNULL, env=self.env, bufsize=0)
+        self._buf = b""
+
+    def _readline(self, timeout):
+        import select
+        import time
+        deadline = time.time() + timeout
+        fd = self.p.stdout.fileno()
+        while b"\n" not in self._buf:
+            left = deadline - time.time()
+            if left <= 0:
+                return None
+            rd, _, _ = select.select([fd], [], [], left)
+            if not rd:
+                return None
+            chunk = os.read(fd, 65536)
+            if not chunk:
+                r, self._buf = self._buf, b""
+                return r
+            self._buf += chunk
+        r, self._buf = self._buf.split(b"\n", 1)
+        return r + b"\n"
 
     def ask(self, *fields):
         line = "\t".join(str(f) for f in fields) + "\n"
         try:
             self.p.stdin.write(line.encode())
             self.p.stdin.flush()
-            r = self.p.stdout.readline()
+            r = self._readline(self.timeout)
         except BrokenPipeError:
             r = b""
+        if r is None:
+            # no reply in time: the co-process hangs (or allocates without bound)
+            self.p.kill()
+            self.p.wait()
+            self.start()
+            return "TIMEOUT"
         if not r:
             # co-process died (abort, stack overflow, ...): report and restart
             rc = self.p.wait()
